@@ -595,6 +595,8 @@ func main() {
 
 	generate(h)
 
+	run.CountN("async:go-tasks", int(atomic.LoadInt64(&asyncTasks)))
+	run.CountN("async:batch-release-not-seen-within-250ms", int(atomic.LoadInt64(&asyncReleaseTimeouts)))
 	if atomic.LoadInt64(&timeoutSpent) > 0 {
 		run.Note("time spent in waits that timed out: %.1fs", time.Duration(atomic.LoadInt64(&timeoutSpent)).Seconds())
 	}
